@@ -668,3 +668,479 @@ Proof.
   - rewrite bus_publish. intros sid s Hs Hv Hx. apply view_ok_app_none; [|now apply V].
     intros k M _. now apply pub_op_neutral.
 Qed.
+
+(* ------------------------------------------------------------------ changing one session / the rooms *)
+Lemma Jh_fields h h' g : Jh h g -> h_sessions h' = h_sessions h -> h_bus h' = h_bus h -> h_clock h <= h_clock h' ->
+  h_nextsid h <= h_nextsid h' -> h_conns h' = h_conns h -> (forall k r, room_of h' k = Some r -> snd k <> 0) -> Jh h' g.
+Proof.
+  intros H Hs Hb Hc Hn Hcn Hr. constructor; unfold get_sess; rewrite ?Hs, ?Hb, ?Hcn; try apply H.
+  - exact Hr.
+  - intros p Hp. pose proof (j_times _ _ H p Hp). lia.
+  - intros sid Hsid. apply H. lia.
+  - intros c sid Hb'. pose proof (j_fresh_bind _ _ H c sid Hb'). lia.
+  - intros sid s Hg. pose proof (j_join _ _ H sid s Hg). lia.
+Qed.
+
+Lemma mem_of_put h sid s k : mem_of (put_sess h sid s) k = mem_of h k.
+Proof. reflexivity. Qed.
+
+Lemma Jh_put h g sid s s' : Jh h g -> get_sess h sid = Some s ->
+  (forall p b r i, In p (h_bus h) -> p_subj p = SubjBackendRoom b r -> p_msg p = ASessionJoined sid i ->
+                   s_room s' = None \/ s_room s' = Some (b, r)) ->
+  s_join s' <= h_clock h -> (forall k, s_room s' = Some k -> fst k = s_backend s') ->
+  (s_conn s' <> None -> s_pending s' = []) -> (is_virtual (s_kind s') = true -> s_conn s' = None) ->
+  (forall c, s_conn s' = Some c -> s_conn s = Some c) -> Jh (put_sess h sid s') g.
+Proof.
+  intros H Hs Ha Hj Hb Hp Hv Hc. constructor.
+  - unfold put_sess. cbn [h_sessions set_sessions]. apply nodup_keys_aset, H.
+  - exact (j_room0 _ _ H).
+  - exact (j_times _ _ H).
+  - exact (j_shape _ _ H).
+  - intros p b r x i t Hin Hsu Hm Ht. rewrite get_put in Ht. destruct (N.eqb_spec x sid) as [->|].
+    + injection Ht as <-. eapply Ha; eauto.
+    + eapply (j_asj _ _ H); eauto.
+  - exact (j_fresh_view _ _ H).
+  - exact (j_fresh_bind _ _ H).
+  - intros x t Ht. rewrite get_put in Ht. destruct (N.eqb_spec x sid) as [->|]; [injection Ht as <-; exact Hj|eapply (j_join _ _ H); eauto].
+  - intros x t k Ht. rewrite get_put in Ht. destruct (N.eqb_spec x sid) as [->|]; [injection Ht as <-; apply Hb|eapply (j_backend _ _ H); eauto].
+  - intros x t Ht. rewrite get_put in Ht. destruct (N.eqb_spec x sid) as [->|]; [injection Ht as <-; exact Hp|eapply (j_pc _ _ H); eauto].
+  - intros x t Ht. rewrite get_put in Ht. destruct (N.eqb_spec x sid) as [->|]; [injection Ht as <-; exact Hv|eapply (j_vconn _ _ H); eauto].
+  - intros x t c Ht Htc. rewrite get_put in Ht. destruct (N.eqb_spec x sid) as [->|].
+    + injection Ht as <-. apply (j_cs _ _ H sid s c Hs). now apply Hc.
+    + eapply (j_cs _ _ H); eauto.
+  - intros x t c Ht Htc. rewrite get_put in Ht. destruct (N.eqb_spec x sid) as [->|].
+    + injection Ht as <-. apply (j_bind _ _ H sid s c Hs). now apply Hc.
+    + eapply (j_bind _ _ H); eauto.
+Qed.
+
+Lemma Jv_put xr xs h g bus sid s' : Jv xr (or_sid xs sid) h g bus ->
+  (is_virtual (s_kind s') = false -> ~ xs sid -> view_ok xr (mem_of h) (g_view g sid) bus sid s') ->
+  Jv xr xs (put_sess h sid s') g bus.
+Proof.
+  intros V Hv x t Ht Hvt Hx. rewrite get_put in Ht. destruct (N.eqb_spec x sid) as [->|Hne].
+  - injection Ht as <-. now apply Hv.
+  - apply V; auto. intros [A|B]; [now apply Hx|contradiction].
+Qed.
+
+Lemma Jv_exempt xr xs h g bus sid : Jv xr xs h g bus -> Jv xr (or_sid xs sid) h g bus.
+Proof. apply Jv_weaken; [auto|]. intros x Hx. now left. Qed.
+Lemma Jg_exempt xr xs h g sid : Jg xr xs h g -> Jg xr (or_sid xs sid) h g.
+Proof. intros [A B]. split; [exact A|now apply Jv_exempt]. Qed.
+
+(* a session leaves its room (the member list is updated afterwards) *)
+Lemma Jg_unroom xr xs h g sid s s' : Jg xr xs h g -> get_sess h sid = Some s ->
+  s_room s' = None -> s_kind s' = s_kind s -> s_conn s' = s_conn s -> s_pending s' = s_pending s ->
+  s_join s' <= h_clock h -> Jg xr (or_sid xs sid) (put_sess h sid s') g.
+Proof.
+  intros [H V] Hs Hr Hk Hc Hp Hj. split.
+  - apply (Jh_put h g sid s s' H Hs); auto.
+    + intros k Hk'. congruence.
+    + intros Hn. rewrite Hp. apply (j_pc _ _ H sid s Hs). congruence.
+    + intros Hv. rewrite Hc. apply (j_vconn _ _ H sid s Hs). congruence.
+    + intros c. congruence.
+  - apply Jv_put; [apply Jv_exempt, Jv_exempt, V|]. intros _ Hx. exfalso. apply Hx. now right.
+Qed.
+
+Lemma pair_eqb_eta k k' : pair_eqb (fst k, snd k) k' = pair_eqb k k'.
+Proof. destruct k. reflexivity. Qed.
+
+Lemma room_remove_facts h k sid r : room_of h k = Some r -> nmem sid (r_members r) = true ->
+  exists h2, room_remove h k sid = publish h2 (SubjRoom (fst k) (snd k)) (ARoomEvent (SLeave [sid])) /\
+    h_sessions h2 = h_sessions h /\ h_bus h2 = h_bus h /\ h_clock h2 = h_clock h /\ h_nextsid h2 = h_nextsid h /\
+    h_conns h2 = h_conns h /\
+    (forall k', mem_of h2 k' = if pair_eqb k' k then match nrem sid (r_members r) with [] => None | l => Some l end
+                                else mem_of h k') /\
+    (forall k' r', room_of h2 k' = Some r' -> room_of h k' <> None).
+Proof.
+  intros Hr Hm. unfold room_remove. rewrite Hr, Hm. eexists. split; [reflexivity|].
+  unfold remove_room_if_empty. rewrite room_of_set_rooms, pget_pset_same. cbn [r_members].
+  destruct (nrem sid (r_members r)) as [|a l] eqn:Hn.
+  - repeat split; try reflexivity.
+    + intros k'. rewrite mem_of_set_rooms, pget_pdel. cbn [h_rooms set_rooms]. rewrite pget_pset. destruct (pair_eqb k' k); reflexivity.
+    + intros k' r'. rewrite room_of_set_rooms, pget_pdel. cbn [h_rooms set_rooms]. rewrite pget_pset. destruct (pair_eqb_spec k' k) as [->|]; [discriminate|].
+      unfold room_of. congruence.
+  - repeat split; try reflexivity.
+    + intros k'. rewrite mem_of_set_rooms, pget_pset. destruct (pair_eqb k' k); [cbn; reflexivity|reflexivity].
+    + intros k' r'. rewrite room_of_set_rooms, pget_pset. destruct (pair_eqb_spec k' k) as [->|]; [congruence|].
+      unfold room_of. congruence.
+Qed.
+
+Lemma bus_ops_single sid k tj M p : bus_ops sid k tj M [p] = opt_list (pub_op sid k tj M p).
+Proof. unfold bus_ops. cbn. apply app_nil_r. Qed.
+Lemma pub_op_room_event sid k tj M k0 m t :
+  pub_op sid k tj M (mkpub (SubjRoom (fst k0) (snd k0)) (ARoomEvent m) t) =
+  if pair_eqb k0 k && negb (t <? tj) then msg_op m else None.
+Proof. unfold pub_op. cbn [p_subj p_msg p_time]. now rewrite pair_eqb_eta. Qed.
+
+Lemma after_snoc ops o b z : after (ops ++ [o]) b z = vop_after o (after ops b z) z.
+Proof. rewrite after_app. reflexivity. Qed.
+
+Lemma Jg_room_remove xr xs h g k sid : Jg xr xs h g -> xs sid ->
+  (forall y s, get_sess h y = Some s -> ~ xs y -> s_room s = Some k ->
+               xr k \/ exists M, mem_of h k = Some M /\ In y M) ->
+  Jg xr xs (room_remove h k sid) g.
+Proof.
+  intros [H V] Hx Hroom. destruct (room_of h k) as [r|] eqn:Hr.
+  2:{ unfold room_remove. rewrite Hr. now split. }
+  destruct (nmem sid (r_members r)) eqn:Hm.
+  2:{ unfold room_remove. rewrite Hr, Hm. now split. }
+  destruct (room_remove_facts h k sid r Hr Hm) as (h2 & -> & Hs2 & Hb2 & Hc2 & Hn2 & Hcn2 & Hmem2 & Hex2).
+  assert (H2 : Jh h2 g).
+  { apply (Jh_fields h h2 g H); auto; try (rewrite ?Hc2, ?Hn2; apply N.le_refl).
+    intros k' r' Hr'. destruct (room_of h k') as [r0|] eqn:Hr0; [eapply (j_room0 _ _ H); eauto|]. now apply Hex2 in Hr'. }
+  assert (Hg2 : forall x, get_sess h2 x = get_sess h x) by (intros x; unfold get_sess; now rewrite Hs2).
+  split.
+  - apply Jh_publish; [exact H2|exact I|]. intros b r0 x i s _ Hm'. discriminate.
+  - rewrite bus_publish, Hb2, Hc2. intros y s Hs Hv Hy. change (get_sess h2 y = Some s) in Hs. rewrite Hg2 in Hs.
+    specialize (V y s Hs Hv Hy). unfold view_ok in *. destruct (s_room s) as [k'|] eqn:Hk'; [|exact V].
+    destruct V as [V|(M & V0 & HM & Hrep & Hseen & Haft)]; [now left|].
+    change (mem_of (publish h2 (SubjRoom (fst k) (snd k)) (ARoomEvent (SLeave [sid]))) k') with (mem_of h2 k').
+    rewrite Hmem2. destruct (pair_eqb_spec k' k) as [->|Hne].
+    + destruct (Hroom y s Hs Hy Hk') as [Hxr|(M' & HM' & Hin)]; [now left|right].
+      assert (M' = M) by congruence. subst M'.
+      assert (M = r_members r) by (apply mem_of_some in HM as (r0 & Hr0 & <-); congruence). subst M.
+      assert (Hyne : y <> sid) by (intros ->; contradiction).
+      assert (Hym : nmem y (nrem sid (r_members r)) = true).
+      { rewrite nmem_nrem. apply nmem_In in Hin. rewrite Hin. destruct (N.eqb_spec y sid); [contradiction|reflexivity]. }
+      exists (nrem sid (r_members r)), V0. split; [|split; [exact Hrep|split; [exact Hseen|]]].
+      { destruct (nrem sid (r_members r)); [discriminate|reflexivity]. }
+      intros z. rewrite bus_ops_app, bus_ops_single, pub_op_room_event, pair_eqb_refl.
+      assert (Ht : (h_clock h <? s_join s) = false) by (apply N.ltb_ge; eapply (j_join _ _ H); eauto).
+      rewrite Ht. cbn [negb andb msg_op opt_list]. rewrite after_snoc. cbn [vop_after nmem].
+      rewrite orb_false_r, nmem_nrem. destruct (N.eqb_spec z sid) as [->|Hz]; cbn [negb andb]; [reflexivity|].
+      rewrite (after_bus_ops_members y k (s_join s) (nrem sid (r_members r)) (r_members r) z).
+      * apply Haft.
+      * rewrite nmem_nrem. destruct (N.eqb_spec z sid); [contradiction|reflexivity].
+    + right. exists M, V0. repeat split; auto. intros z. rewrite bus_ops_app, bus_ops_single, pub_op_room_event.
+      destruct (pair_eqb_spec k k'); [congruence|]. cbn [andb opt_list]. rewrite app_nil_r. apply Haft.
+Qed.
+
+(* ------------------------------------------------------------------ leaving a room *)
+(* every session that names room k is on k's member list (from the structural invariant) *)
+Definition rooms_cover (xr : N * N -> Prop) (xs : N -> Prop) (h : hub) (k : N * N) : Prop :=
+  forall y s, get_sess h y = Some s -> ~ xs y -> s_room s = Some k -> xr k \/ exists M, mem_of h k = Some M /\ In y M.
+
+Lemma rooms_cover_wf xr xp xs h k : WFg xr xp h -> rooms_cover xr xs h k.
+Proof.
+  intros W y s Hs _ Hk. destruct (wf_room _ _ h W y s k Hs Hk) as [A|(r & Hr & Hi)]; [now left|right].
+  exists (r_members r). split; [|exact Hi]. apply mem_of_some. eauto.
+Qed.
+Lemma rooms_cover_same xr xs h h' k : same h h' -> rooms_cover xr xs h k -> rooms_cover xr xs h' k.
+Proof.
+  intros E C y s' Hs Hx Hk. destruct (same_get _ _ _ _ E Hs) as (s & Hs0 & Hc & _). apply vcore_eq in Hc as (_ & _ & Hr & _).
+  rewrite (sm_rooms _ _ E). apply (C y s Hs0 Hx). congruence.
+Qed.
+Lemma rooms_cover_put xr xs h k sid s' : rooms_cover xr xs h k -> rooms_cover xr (or_sid xs sid) (put_sess h sid s') k.
+Proof.
+  intros C y s Hs Hx Hk. rewrite get_put in Hs. destruct (N.eqb_spec y sid) as [->|].
+  - exfalso. apply Hx. now right.
+  - rewrite mem_of_put. apply (C y s Hs); [|exact Hk]. intro. apply Hx. now left.
+Qed.
+
+Lemma get_rs_del h sid x : get_sess (rs_del h sid) x = get_sess h x.
+Proof. unfold get_sess. now rewrite rs_del_sessions. Qed.
+
+Lemma Jg_pre xr xs h h' g : same h h' -> Jg xr xs h g -> Jg xr xs h' g.
+Proof. apply Jg_same. Qed.
+
+Lemma leave_room_irr h sid notify : forallb out_irr (snd (leave_room h sid notify)) = true.
+Proof.
+  unfold leave_room. destruct (get_sess h sid) as [s|]; [|reflexivity]. destruct (s_room s) as [k|]; [|reflexivity].
+  destruct (is_virtual (s_kind s)); [reflexivity|].
+  match goal with |- context [release_mcu ?hh ?x] => destruct (quiet_release_mcu hh x) as [_ I]; destruct (release_mcu hh x) as [h3 o2] end.
+  cbn [snd] in *. rewrite forallb_app, I. destruct (notify && negb (N.eqb (s_rs s) 0)); reflexivity.
+Qed.
+
+Lemma Jg_leave_room xr xp xs h g sid notify : WFg xr xp h -> Jg xr xs h g ->
+  Jg xr (or_sid xs sid) (fst (leave_room h sid notify)) (gouts g (snd (leave_room h sid notify))).
+Proof.
+  intros W HJ. apply Jg_irr; [apply leave_room_irr|].
+  unfold leave_room. destruct (get_sess h sid) as [s|] eqn:Hs; [|now apply Jg_exempt].
+  destruct (s_room s) as [k|] eqn:Hk; [|now apply Jg_exempt].
+  pose proof (rooms_cover_wf xr xp xs h k W) as C.
+  assert (E1 : same h (rs_del h sid)) by apply same_rs_del.
+  assert (Hs1 : get_sess (rs_del h sid) sid = Some s) by now rewrite get_rs_del.
+  pose proof (Jg_same _ _ _ _ _ E1 HJ) as J1. pose proof (rooms_cover_same _ _ _ _ _ E1 C) as C1.
+  assert (Hcl : 0 <= h_clock (rs_del h sid)) by apply N.le_0_l.
+  destruct (is_virtual (s_kind s)).
+  - cbn [fst]. apply Jg_room_remove; [|now right|now apply rooms_cover_put].
+    apply (Jg_unroom xr xs _ g sid s); auto. cbn. apply (j_join _ _ (proj1 J1) sid s Hs1).
+  - set (s1 := upd_sess s None 0 (s_conn s) (s_perms s) (s_pending s) [] 0).
+    set (h2 := put_sess (rs_del h sid) sid s1).
+    assert (J2 : Jg xr (or_sid xs sid) h2 g) by (apply (Jg_unroom xr xs _ g sid s); auto).
+    assert (C2 : rooms_cover xr (or_sid xs sid) h2 k) by now apply rooms_cover_put.
+    destruct (quiet_release_mcu h2 sid) as [E3 _]. destruct (release_mcu h2 sid) as [h3 o2]. cbn [fst snd] in *.
+    apply Jg_room_remove; [eapply Jg_same; eauto|now right|eapply rooms_cover_same; eauto].
+Qed.
+
+(* ------------------------------------------------------------------ removing a session *)
+Lemma removal_proj h sid oc kd :
+  let F := drop_vt (detach_conn (scrub h sid) oc) kd sid in
+  h_sessions F = adel (h_sessions h) sid /\ h_rooms F = h_rooms h /\ h_bus F = h_bus h /\ h_clock F = h_clock h /\
+  h_nextsid F = h_nextsid h /\ h_conns F = h_conns (detach_conn h oc).
+Proof.
+  cbv zeta. unfold drop_vt.
+  assert (G : h_sessions (detach_conn (scrub h sid) oc) = adel (h_sessions h) sid /\ h_rooms (detach_conn (scrub h sid) oc) = h_rooms h /\
+              h_bus (detach_conn (scrub h sid) oc) = h_bus h /\ h_clock (detach_conn (scrub h sid) oc) = h_clock h /\
+              h_nextsid (detach_conn (scrub h sid) oc) = h_nextsid h /\ h_conns (detach_conn (scrub h sid) oc) = h_conns (detach_conn h oc)).
+  { unfold detach_conn. destruct oc as [c|]; [|repeat split; reflexivity].
+    change (h_conns (scrub h sid)) with (h_conns h). destruct (aget (h_conns h) c); repeat split; reflexivity. }
+  destruct kd as [| |p v]; try exact G.
+  destruct (pget (h_vtable (detach_conn (scrub h sid) oc)) (p, v)) as [x|]; [|exact G].
+  destruct (N.eqb x sid); exact G.
+Qed.
+
+Lemma Jg_remove xr xs h g sid s : Jg xr (or_sid xs sid) h g -> get_sess h sid = Some s ->
+  Jg xr xs (drop_vt (detach_conn (scrub h sid) (s_conn s)) (s_kind s) sid) g.
+Proof.
+  intros [H V] Hs. set (F := drop_vt _ _ _).
+  destruct (removal_proj h sid (s_conn s) (s_kind s)) as (P1 & P2 & P3 & P4 & P5 & P6). fold F in P1, P2, P3, P4, P5, P6.
+  assert (Hg : forall x, get_sess F x = if N.eqb x sid then None else get_sess h x).
+  { intros x. unfold get_sess. rewrite P1. apply aget_adel. }
+  assert (Hg' : forall x t, get_sess F x = Some t -> x <> sid /\ get_sess h x = Some t).
+  { intros x t Ht. rewrite Hg in Ht. destruct (N.eqb_spec x sid); [discriminate|auto]. }
+  assert (Hm : forall k, mem_of F k = mem_of h k) by (intros k; unfold mem_of, room_of; now rewrite P2).
+  split.
+  - constructor.
+    + rewrite P1. apply nodup_keys_adel, H.
+    + intros k r Hr. unfold room_of in Hr. rewrite P2 in Hr. eapply (j_room0 _ _ H); eauto.
+    + rewrite P3, P4. apply H.
+    + rewrite P3. apply H.
+    + intros p b r x i t Hp Hsu Hmsg Ht. rewrite P3 in Hp. apply Hg' in Ht as [_ Ht]. eapply (j_asj _ _ H); eauto.
+    + rewrite P5. apply H.
+    + rewrite P5. apply H.
+    + intros x t Ht. apply Hg' in Ht as [_ Ht]. rewrite P4. eapply (j_join _ _ H); eauto.
+    + intros x t k Ht. apply Hg' in Ht as [_ Ht]. eapply (j_backend _ _ H); eauto.
+    + intros x t Ht. apply Hg' in Ht as [_ Ht]. eapply (j_pc _ _ H); eauto.
+    + intros x t Ht. apply Hg' in Ht as [_ Ht]. eapply (j_vconn _ _ H); eauto.
+    + intros x t c Ht Hc. apply Hg' in Ht as [Hne Ht]. destruct (j_cs _ _ H x t c Ht Hc) as (cn & Hcn & Hcs).
+      rewrite P6, detach_conn_get. destruct (s_conn s) as [c0|] eqn:Hc0; [|eauto].
+      destruct (N.eqb_spec c c0) as [->|]; [|eauto].
+      destruct (j_cs _ _ H sid s c0 Hs Hc0) as (cn' & Hcn' & Hcs'). congruence.
+    + intros x t c Ht Hc. apply Hg' in Ht as [_ Ht]. eapply (j_bind _ _ H); eauto.
+  - rewrite P3. intros x t Ht Hv Hx. apply Hg' in Ht as [Hne Ht].
+    eapply view_ok_ext; [exact Hm|reflexivity|]. apply V; auto. intros [A|B]; contradiction.
+Qed.
+
+(* what stays of a session across the functions that do not (re)attach it *)
+Definition skept (s s1 : session) : Prop :=
+  s_kind s1 = s_kind s /\ s_backend s1 = s_backend s /\ s_conn s1 = s_conn s /\ pend_ok s s1.
+Lemma skept_refl s : skept s s.
+Proof. repeat split; reflexivity. Qed.
+Lemma pend_ok_trans s1 s2 s3 : s_conn s2 = s_conn s1 -> pend_ok s1 s2 -> pend_ok s2 s3 -> pend_ok s1 s3.
+Proof. intros Hc [A B] [C D]. split; [intros Hn; rewrite C, A; auto; congruence|intros v; now rewrite D, B]. Qed.
+Lemma skept_trans s1 s2 s3 : skept s1 s2 -> skept s2 s3 -> skept s1 s3.
+Proof.
+  intros (A1 & A2 & A3 & A4) (B1 & B2 & B3 & B4). repeat split; try congruence; eapply pend_ok_trans; eauto.
+Qed.
+Lemma skept_same h h' x s s' : same h h' -> get_sess h x = Some s -> get_sess h' x = Some s' -> skept s s'.
+Proof.
+  intros E H1 H2. destruct (same_get' _ _ _ _ E H1) as (s2 & H2' & Hc & Hp). assert (s2 = s') by congruence. subst.
+  apply vcore_eq in Hc as (A & B & _ & C & _). repeat split; auto; apply Hp.
+Qed.
+
+Lemma get_room_remove h k x y : get_sess (room_remove h k x) y = get_sess h y.
+Proof. unfold get_sess. now rewrite (proj1 (room_remove_proj h k x)). Qed.
+
+Lemma leave_room_sid h sid notify s : get_sess h sid = Some s ->
+  exists s1, get_sess (fst (leave_room h sid notify)) sid = Some s1 /\ s_room s1 = None /\ skept s s1.
+Proof.
+  intros Hs. unfold leave_room. rewrite Hs. destruct (s_room s) as [k|] eqn:Hk.
+  2:{ exists s. cbn [fst]. split; [exact Hs|]. split; [exact Hk|apply skept_refl]. }
+  destruct (is_virtual (s_kind s)).
+  - cbn [fst]. rewrite get_room_remove, get_put, N.eqb_refl. eexists. split; [reflexivity|]. split; [reflexivity|].
+    repeat split; reflexivity.
+  - set (s1 := upd_sess s None 0 (s_conn s) (s_perms s) (s_pending s) [] 0).
+    set (h2 := put_sess (rs_del h sid) sid s1).
+    assert (H2 : get_sess h2 sid = Some s1) by (unfold h2; now rewrite get_put, N.eqb_refl).
+    destruct (quiet_release_mcu h2 sid) as [E3 _]. destruct (release_mcu h2 sid) as [h3 o2]. cbn [fst snd] in *.
+    destruct (same_get' _ _ _ _ E3 H2) as (s3 & H3 & Hc & Hp). rewrite get_room_remove. exists s3. split; [exact H3|].
+    pose proof (vcore_eq _ _ Hc) as (A & B & C & D & _). split; [rewrite C; reflexivity|].
+    apply (skept_trans s s1 s3); [repeat split; reflexivity|]. eapply skept_same; eauto.
+Qed.
+
+Lemma leave_room_other h sid notify y : y <> sid ->
+  exists E : True, forall t, get_sess h y = Some t -> exists t', get_sess (fst (leave_room h sid notify)) y = Some t' /\ vcore t' = vcore t /\ pend_ok t t'.
+Proof.
+  intros Hne. exists I. intros t Ht. unfold leave_room. destruct (get_sess h sid) as [s|] eqn:Hs.
+  2:{ exists t. cbn [fst]. repeat split; auto. }
+  destruct (s_room s) as [k|] eqn:Hk.
+  2:{ exists t. cbn [fst]. repeat split; auto. }
+  destruct (is_virtual (s_kind s)).
+  - cbn [fst]. rewrite get_room_remove, get_put_other, get_rs_del by exact Hne. exists t. repeat split; auto.
+  - set (s1 := upd_sess s None 0 (s_conn s) (s_perms s) (s_pending s) [] 0).
+    set (h2 := put_sess (rs_del h sid) sid s1).
+    assert (H2 : get_sess h2 y = Some t) by (unfold h2; now rewrite get_put_other, get_rs_del).
+    destruct (quiet_release_mcu h2 sid) as [E3 _]. destruct (release_mcu h2 sid) as [h3 o2]. cbn [fst snd] in *.
+    rewrite get_room_remove. eapply same_get'; eauto.
+Qed.
+
+(* ------------------------------------------------------------------ closing sessions *)
+Lemma close_one_irr h sid : forallb out_irr (snd (close_one h sid)) = true.
+Proof.
+  unfold close_one. destruct (get_sess h sid) as [s|]; [|reflexivity].
+  pose proof (leave_room_irr h sid true) as I1. destruct (leave_room h sid true) as [h1 o1].
+  destruct (quiet_release_mcu h1 sid) as [_ I2]. destruct (release_mcu h1 sid) as [h2a o2a]. cbn [snd] in *.
+  assert (I3 : forall l, forallb out_irr (o1 ++ (o2a ++ map (fun e : N * mcupend => ToMcu (MFailed (fst e))) l)) = true).
+  { intros l. rewrite !forallb_app, I1, I2. cbn. induction l; cbn; auto. }
+  destruct (s_kind s); cbn [snd]; try apply I3.
+  rewrite app_assoc, app_assoc, forallb_app, <- app_assoc, I3. destruct (s_room s); reflexivity.
+Qed.
+
+Lemma Jg_close_one xr xp xs h g sid : WFg xr xp h -> Jg xr xs h g ->
+  Jg xr xs (fst (close_one h sid)) (gouts g (snd (close_one h sid))).
+Proof.
+  intros W HJ. apply Jg_irr; [apply close_one_irr|].
+  unfold close_one. destruct (get_sess h sid) as [s|] eqn:Hs; [|exact HJ].
+  pose proof (Jg_leave_room xr xp xs h g sid true W HJ) as J1.
+  destruct (leave_room_sid h sid true s Hs) as (s1 & Hs1 & Hr1 & K1).
+  pose proof (leave_room_irr h sid true) as I1.
+  destruct (leave_room h sid true) as [h1 o1]. cbn [fst snd] in *.
+  apply (Jg_geq _ _ _ _ g) in J1; [|split; intros; symmetry; now apply (gouts_irr o1 g I1)].
+  destruct (quiet_release_mcu h1 sid) as [E2 _]. destruct (release_mcu h1 sid) as [h2a o2a]. cbn [fst snd] in *.
+  set (h2 := set_mcu h2a _ _ _).
+  assert (E2' : same h1 h2) by (eapply same_trans; [exact E2|apply same_fields; try reflexivity; apply N.le_refl]).
+  destruct (same_get' _ _ _ _ E2' Hs1) as (s2 & Hs2 & Hc2 & _). apply vcore_eq in Hc2 as (A & _ & _ & C & _).
+  destruct K1 as (K1 & _ & K3 & _).
+  assert (Hfin : Jg xr xs (drop_vt (detach_conn (scrub h2 sid) (s_conn s)) (s_kind s) sid) g).
+  { replace (s_conn s) with (s_conn s2) by congruence. replace (s_kind s) with (s_kind s2) by congruence.
+    apply Jg_remove; [|exact Hs2]. eapply Jg_same; eauto. }
+  destruct (s_kind s); cbn [fst]; exact Hfin.
+Qed.
+
+Lemma Jg_unirr xr xs h g outs : forallb out_irr outs = true -> Jg xr xs h (gouts g outs) -> Jg xr xs h g.
+Proof. intros I. apply Jg_geq. split; intros; symmetry; now apply (gouts_irr outs g I). Qed.
+
+Lemma Jg_close_all xr xs kids : forall hh oo g xp, WFg xr xp hh -> Jg xr xs hh g ->
+  Jg xr xs (fst (close_all kids (hh, oo))) g.
+Proof.
+  induction kids as [|k kids IH]; intros hh oo g xp W HJ; cbn [close_all fold_left fst]; [exact HJ|].
+  pose proof (wf_close_one xr xp hh k W) as W1. pose proof (Jg_close_one xr xp xs hh g k W HJ) as J1.
+  pose proof (close_one_irr hh k) as I1. destruct (close_one hh k) as [h1 o1]. cbn [fst snd] in *.
+  fold (close_all kids (h1, oo ++ o1)). eapply IH; [exact W1|]. eapply Jg_unirr; eauto.
+Qed.
+Lemma close_all_irr kids : forall hh oo, forallb out_irr oo = true -> forallb out_irr (snd (close_all kids (hh, oo))) = true.
+Proof.
+  induction kids as [|k kids IH]; intros hh oo I; cbn [close_all fold_left snd]; [exact I|].
+  pose proof (close_one_irr hh k) as I1. destruct (close_one hh k) as [h1 o1]. cbn [snd] in I1.
+  fold (close_all kids (h1, oo ++ o1)). apply IH. now rewrite forallb_app, I, I1.
+Qed.
+
+Lemma close_session_irr h sid : forallb out_irr (snd (close_session h sid)) = true.
+Proof.
+  unfold close_session. pose proof (close_one_irr h sid) as I1. destruct (close_one h sid) as [h1 o1]. cbn [snd] in I1.
+  fold (close_all (children h sid) (h1, o1)). now apply close_all_irr.
+Qed.
+Lemma Jg_close_session xr xp xs h g sid : WFg xr xp h -> Jg xr xs h g ->
+  Jg xr xs (fst (close_session h sid)) (gouts g (snd (close_session h sid))).
+Proof.
+  intros W HJ. apply Jg_irr; [apply close_session_irr|]. unfold close_session.
+  pose proof (wf_close_one xr xp h sid W) as W1. pose proof (Jg_close_one xr xp xs h g sid W HJ) as J1.
+  pose proof (close_one_irr h sid) as I1. destruct (close_one h sid) as [h1 o1]. cbn [fst snd] in *.
+  fold (close_all (children h sid) (h1, o1)). eapply Jg_close_all; [exact W1|]. eapply Jg_unirr; eauto.
+Qed.
+
+(* ------------------------------------------------------------------ connections *)
+Lemma view_ok_fields xr mo v bus sid s s' : s_room s' = s_room s -> s_pending s' = s_pending s -> s_seen s' = s_seen s ->
+  s_join s' = s_join s -> view_ok xr mo v bus sid s -> view_ok xr mo v bus sid s'.
+Proof. intros A B C D. unfold view_ok. now rewrite A, B, C, D. Qed.
+
+Lemma Jg_disconnect xr xs h g sid s : Jg xr xs h g -> get_sess h sid = Some s ->
+  Jg xr xs (put_sess h sid (sess_conn s None)) g.
+Proof.
+  intros [H V] Hs. split.
+  - apply (Jh_put h g sid s _ H Hs).
+    + intros p b r i Hp Hsu Hm. change (s_room (sess_conn s None)) with (s_room s). eapply (j_asj _ _ H); eauto.
+    + change (s_join (sess_conn s None)) with (s_join s). eapply (j_join _ _ H); eauto.
+    + change (s_room (sess_conn s None)) with (s_room s). change (s_backend (sess_conn s None)) with (s_backend s).
+      intros k Hk. eapply (j_backend _ _ H); eauto.
+    + intros Hn. contradiction.
+    + reflexivity.
+    + discriminate.
+  - apply Jv_put; [now apply Jv_exempt|]. intros Hv Hx. apply (view_ok_fields _ _ _ _ _ s); auto.
+Qed.
+
+Lemma Jg_conn_gone xr xs h g c : Jg xr xs h g -> (forall x s, get_sess h x = Some s -> s_conn s <> Some c) ->
+  Jg xr xs (set_conns h (adel (h_conns h) c)) g.
+Proof.
+  intros [H V] Hno. split; [|exact V]. constructor; try apply H.
+  intros x s c' Hs Hc. destruct (j_cs _ _ H x s c' Hs Hc) as (cn & Hcn & Hcs). exists cn. split; [|exact Hcs].
+  cbn [h_conns set_conns]. rewrite aget_adel. destruct (N.eqb_spec c' c) as [->|]; [|exact Hcn]. exfalso. eapply Hno; eauto.
+Qed.
+
+Lemma close_conn_irr h c : forallb out_irr (snd (close_conn h c)) = true.
+Proof.
+  unfold close_conn. destruct (aget (h_conns h) c) as [cn|]; [|reflexivity].
+  destruct (c_sess cn) as [sid|]; [|reflexivity].
+  match goal with |- context [close_session ?hh sid] => pose proof (close_session_irr hh sid) as I; destruct (close_session hh sid) as [h3 o3] end.
+  exact I.
+Qed.
+
+Lemma Jg_close_conn xr xs h g c : WFg xr none1 h -> Jg xr xs h g ->
+  Jg xr xs (fst (close_conn h c)) (gouts g (snd (close_conn h c))).
+Proof.
+  intros W HJ. apply Jg_irr; [apply close_conn_irr|].
+  unfold close_conn. destruct (aget (h_conns h) c) as [cn|] eqn:Hc; [|exact HJ].
+  pose proof (wf_del_conn _ _ h c W) as W1.
+  assert (Hone : forall x s, get_sess h x = Some s -> s_conn s = Some c -> c_sess cn = Some x).
+  { intros x s Hx Hxc. destruct (j_cs _ _ (proj1 HJ) x s c Hx Hxc) as (cn' & Hcn' & Hcs'). congruence. }
+  destruct (c_sess cn) as [sid|] eqn:Hcs.
+  2:{ cbn [fst]. apply Jg_conn_gone; [exact HJ|]. intros x s Hx Hxc. specialize (Hone x s Hx Hxc). discriminate. }
+  match goal with |- context [close_session ?hh sid] => set (h2 := hh) end.
+  assert (J2 : Jg xr xs h2 g /\ WFg xr none1 h2).
+  { subst h2. change (get_sess (set_conns h (adel (h_conns h) c)) sid) with (get_sess h sid).
+    destruct (get_sess h sid) as [s|] eqn:Hs.
+    - split.
+      + change (put_sess (set_conns h (adel (h_conns h) c)) sid (sess_conn s None))
+          with (set_conns (put_sess h sid (sess_conn s None)) (adel (h_conns (put_sess h sid (sess_conn s None))) c)).
+        apply Jg_conn_gone; [now apply Jg_disconnect|]. intros x t Hx Hxc. rewrite get_put in Hx.
+        destruct (N.eqb_spec x sid) as [->|Hne]; [injection Hx as <-; discriminate|].
+        specialize (Hone x t Hx Hxc). congruence.
+      + apply wf_sess_conn_none; [exact W1|exact Hs|].
+        intros c' cn'. hsimpl. rewrite aget_adel. destruct (N.eqb_spec c' c) as [->|Hne]; [discriminate|].
+        intros Hc' Hx.
+        destruct (wf_conns _ _ h W c cn sid Hc Hcs) as [s1 [Hs1 Hc1]].
+        destruct (wf_conns _ _ h W c' cn' sid Hc' Hx) as [s2 [Hs2 Hc2]]. rewrite Hs1 in Hs2. injection Hs2 as <-. congruence.
+    - split; [|exact W1]. apply Jg_conn_gone; [exact HJ|]. intros x t Hx Hxc. specialize (Hone x t Hx Hxc). congruence. }
+  destruct J2 as [J2 W2].
+  pose proof (Jg_close_session xr none1 xs h2 g sid W2 J2) as J3. pose proof (close_session_irr h2 sid) as I3.
+  destruct (close_session h2 sid) as [h3 o3]. cbn [fst snd] in *. eapply Jg_unirr; eauto.
+Qed.
+
+Lemma send_conn_irr h c m : msg_irr m = true -> forallb out_irr (snd (send_conn h c m)) = true.
+Proof.
+  intros Hm. unfold send_conn. destruct (aget (h_conns h) c); [|reflexivity].
+  destruct (is_closing h c m); [|cbn; now rewrite Hm].
+  pose proof (close_conn_irr h c) as I. destruct (close_conn h c) as [h2 o2]. cbn [snd forallb out_irr] in *. now rewrite Hm, I.
+Qed.
+Lemma Jg_send_conn xr xs h g c m : msg_irr m = true -> WFg xr none1 h -> Jg xr xs h g ->
+  Jg xr xs (fst (send_conn h c m)) (gouts g (snd (send_conn h c m))).
+Proof.
+  intros Hm W HJ. apply Jg_irr; [now apply send_conn_irr|].
+  unfold send_conn. destruct (aget (h_conns h) c); [|exact HJ]. destruct (is_closing h c m); [|exact HJ].
+  pose proof (Jg_close_conn xr xs h g c W HJ) as J2. pose proof (close_conn_irr h c) as I2.
+  destruct (close_conn h c) as [h2 o2]. cbn [fst snd] in *. eapply Jg_unirr; eauto.
+Qed.
+
+(* sending a message that changes no view (it may close the connection and the session) *)
+Lemma send_irr h x m : msg_irr m = true -> forallb out_irr (snd (send_session h x m)) = true.
+Proof.
+  intros Hm. rewrite send_session_eq. destruct (quiet_deliver_irr h (target h x) m Hm) as [_ I].
+  destruct (deliver_to_session h (target h x) m) as [h1 outs]. cbn [snd] in I.
+  destruct outs as [|[c mm| | |] [|o2 outs2]]; try exact I.
+  destruct (is_closing h1 c mm); [|exact I].
+  pose proof (close_conn_irr h1 c) as I2. destruct (close_conn h1 c) as [h2 o2]. cbn [snd] in *. now rewrite forallb_app, I, I2.
+Qed.
+Lemma Jg_send_irr xr xs h g x m : msg_irr m = true -> WFg xr none1 h -> Jg xr xs h g ->
+  Jg xr xs (fst (send_session h x m)) (gouts g (snd (send_session h x m))).
+Proof.
+  intros Hm W HJ. apply Jg_irr; [now apply send_irr|]. rewrite send_session_eq.
+  destruct (quiet_deliver_irr h (target h x) m Hm) as [E I].
+  assert (W1 : WFg xr none1 (fst (deliver_to_session h (target h x) m))) by (eapply wf_equiv; [apply equiv_deliver_to_session|exact W]).
+  destruct (deliver_to_session h (target h x) m) as [h1 outs]. cbn [fst snd] in *.
+  pose proof (Jg_same _ _ _ _ _ E HJ) as J1.
+  destruct outs as [|[c mm| | |] [|o2 outs2]]; try exact J1.
+  destruct (is_closing h1 c mm); [|exact J1].
+  pose proof (Jg_close_conn xr xs h1 g c W1 J1) as J2. pose proof (close_conn_irr h1 c) as I2.
+  destruct (close_conn h1 c) as [h2 o2]. cbn [fst snd] in *. eapply Jg_unirr; eauto.
+Qed.
